@@ -63,7 +63,7 @@ def column_values(data: Any, name: str) -> List[Any]:
     if hasattr(data, "columns"):
         return [None if (v != v) else (v.item() if hasattr(v, "item") else v) for v in data[name].tolist()]
     if isinstance(data, list):
-        return [r.get(name) for r in data]
+        return [r[name] for r in data]
     raise TypeError(type(data))
 
 
@@ -118,7 +118,7 @@ def table_rows(data: Any) -> List[Dict[str, Any]]:
 class Listener:
     """Receives every calculation: on_enter(group, names, incoming_columns) / on_exit(group, names)."""
 
-    def on_enter(self, group: str, names: List[str], cols: List[str], data: Any) -> None:  # pragma: no cover
+    def on_enter(self, group: str, names: List[str], cols: List[str], data: Any, features: Any = None) -> None:  # pragma: no cover
         pass
 
     def on_exit(self, group: str, names: List[str]) -> None:  # pragma: no cover
@@ -130,7 +130,7 @@ class TraceListener(Listener):
         self.events: List[Tuple[str, str, Tuple[str, ...], Tuple[str, ...]]] = []
         self._lock = threading.Lock()
 
-    def on_enter(self, group: str, names: List[str], cols: List[str], data: Any) -> None:
+    def on_enter(self, group: str, names: List[str], cols: List[str], data: Any, features: Any = None) -> None:
         with self._lock:
             self.events.append(("enter", group, tuple(sorted(names)), tuple(sorted(cols))))
 
@@ -194,7 +194,7 @@ class Universe:
 
             def calculate_feature(cls: Any, data: Any, features: Any, _cols: Any = cols) -> Any:
                 names = sorted(f.get_name() for f in features.features)
-                uni.listener.on_enter(gname, names, [], None)
+                uni.listener.on_enter(gname, names, [], None, features)
                 for n in names:
                     if (gname, n) in uni.fail:
                         raise RuntimeError(f"VERIF-FAULT calc {gname}.{n}")
@@ -221,7 +221,7 @@ class Universe:
 
             def calculate_feature(cls: Any, data: Any, features: Any, _f: Any = feats) -> Any:
                 names = sorted(f.get_name() for f in features.features)
-                uni.listener.on_enter(gname, names, columns_of(data), data)
+                uni.listener.on_enter(gname, names, columns_of(data), data, features)
                 new: Dict[str, List[Any]] = {}
                 n_rows = nrows(data)
                 for n in names:
@@ -391,7 +391,7 @@ def export_plan(session: Any, uni: Optional[Universe] = None) -> Dict[str, Any]:
             d.update(kind="TFS", uuids=[r(st.uuid)], from_cfw=st.from_framework.__name__, to_cfw=st.to_framework.__name__,
                      link_id=r(st.link_id) if st.link_id else None, requested=False)
         steps.append(d)
-    return {"steps": steps, "n_uuids": len(ren)}
+    return {"steps": steps, "n_uuids": len(ren), "_ren": ren}
 
 
 def canon_plan(p: Dict[str, Any]) -> Any:
